@@ -5,6 +5,22 @@ import json, os, subprocess
 ROOT = os.path.dirname(os.path.dirname(os.path.abspath(__file__)))
 
 CLAIMED = {
+ "C06": dict(
+   text="C06_shuffle, proved in Coq by induction over the list for an executable model of prepareFds / pass 1 / pass 2 over a model of the "
+        "kernel's descriptor table: for EVERY descriptor list (length, order, repeats, the close marker, values below or above their slot) and "
+        "every placement of the sync socket and of the exec descriptor, the shuffle succeeds, slot k holds the k-th listed open file with "
+        "close-on-exec cleared (or is closed), no descriptor at or above the list length survives exec, and the socket and the exec descriptor "
+        "still denote their open files (C06_table_at_exec as corollary).  The defect of the pinned tree is kept as a theorem about the unfixed "
+        "variant (C06_pipe_clobbers_exec_on_pinned) and was repaired by two fix: commits.  Tie on every run: ~1500 real launches (exhaustive "
+        "lists of length <= 3 over {-1,0,1,2,12,13} x exec x socketpair placement x fork/vfork, random lists up to length 24, malformed lists) "
+        "with the started probe reporting (dev, inode, flags) of every open descriptor, compared with the model evaluated in Coq; caller's "
+        "Runner before/after; second Start; launcher leaks; 2400 concurrent starts.",
+   note="Trusted: Coq kernel + vm_compute; kernel rules FD1 (dup3 replaces the target and sets close-on-exec as asked), FD2 (exec closes "
+        "exactly the close-on-exec descriptors), FD3; hypothesis of the theorem: every descriptor of the launcher outside the slot range is "
+        "close-on-exec at fork time (Go opens everything O_CLOEXEC; the container marks received and inherited descriptors; checked per run "
+        "by the probe and under concurrency).  The container layer (closeOnExecFds / closeOnExecAllFds) is exercised by C12/C19 runs.",
+   technique="Coq proof by induction over the descriptor list (pass invariants) + in-Coq differential evaluation against real launches",
+   design="§5 C06"),
  "C14": dict(
    text="Theorems in Coq about an executable model of the Open batch on both sides of the RPC (container: per-item MkdirAll / lstat / OpenFile with "
         "the descriptor list compacted and the error list full length; host: the lock-step walk): C14_alignment / C14_result_at (for every batch "
